@@ -171,7 +171,7 @@ end
 
 /-- the recursive calls agree on a safe plan and its flagged copy -/
 def RecEq (E : Env) (rec : Rec) : Prop :=
-  ∀ (inT out : Ty) (c : Plan) (v : Value), gck E inT out false = some c → Conds inT out v →
+  ∀ (inT out : Ty) (c : Plan) (v : Value), gck E inT out false = some c → Conds E inT out v →
     rec (.wrap out (up c)) v = rec (.wrap out c) v
 
 theorem mapRes_congr {α β} {f g : α → Res β} : ∀ (xs : List α), (∀ x ∈ xs, f x = g x) →
@@ -184,7 +184,7 @@ section Eq
 variable {E : Env} (hU : UnifyLaws E) {rec : Rec} (hrec : RecOK E rec) (heq : RecEq E rec)
 include heq
 
-theorem planFor_eq {it ot : Ty} {p : Plan} {e : Value} (hp : PlanFor E false it ot p) (hc : Conds it ot e) :
+theorem planFor_eq {it ot : Ty} {p : Plan} {e : Value} (hp : PlanFor E false it ot p) (hc : Conds E it ot e) :
     applyOpt rec (up p) e = applyOpt rec p e := by
   rcases hp with ⟨rfl, _⟩ | ⟨c, rfl, hg⟩
   · rfl
@@ -193,7 +193,7 @@ theorem planFor_eq {it ot : Ty} {p : Plan} {e : Value} (hp : PlanFor E false it 
 
 theorem members_eq {ie oe conv} {post : Value → Value} (hpf : PlanFor E false ie oe conv)
     (hwi : wf ie = true) (hoi : hasOpt ie = false) (hwo : wf oe = true) (hdo : hasDyn oe = false)
-    (hreg : regular ie oe = true) {es : List Value} (hes : ∀ e ∈ es, e.ty = ie ∧ wtP ie e.v = true) :
+    (hreg : regular E ie oe = true) {es : List Value} (hes : ∀ e ∈ es, e.ty = ie ∧ wtP ie e.v = true) :
     mapRes (fun e => (applyOpt rec (up conv) e).map post) es =
       mapRes (fun e => (applyOpt rec conv e).map post) es := by
   apply mapRes_congr
@@ -203,7 +203,7 @@ theorem members_eq {ie oe conv} {post : Value → Value} (hpf : PlanFor E false 
 theorem applyZip_all_eq {t : Ty} (post : Value → Value) (hwt : wf t = true) (hdt : hasDyn t = false) :
     ∀ (its : List Ty) (cs : List Plan) (ps : List Payload),
     All2 (fun it p => PlanFor E false it t p) its cs → wtZip its ps = true →
-    (∀ it ∈ its, wf it = true ∧ hasOpt it = false ∧ regular it t = true) →
+    (∀ it ∈ its, wf it = true ∧ hasOpt it = false ∧ regular E it t = true) →
     applyZip rec post (upL cs) (zipTys its ps) = applyZip rec post cs (zipTys its ps)
   | [], _, [], .nil, _, _ => rfl
   | [], _, _ :: _, _, hw, _ => by simp [wtZip] at hw
@@ -211,7 +211,7 @@ theorem applyZip_all_eq {t : Ty} (post : Value → Value) (hwt : wf t = true) (h
   | it :: its, _, p :: ps, .cons hp hps, hw, hall => by
     simp only [wtZip, Bool.and_eq_true] at hw
     obtain ⟨hwi, hoi, hri⟩ := hall it (by simp)
-    have hc : Conds it t ⟨it, p⟩ := ⟨rfl, hwi, hwt, hoi, hdt, hri, hw.1⟩
+    have hc : Conds E it t ⟨it, p⟩ := ⟨rfl, hwi, hwt, hoi, hdt, hri, hw.1⟩
     simp only [upL, zipTys, applyZip, planFor_eq heq hp hc,
       applyZip_all_eq post hwt hdt its _ ps hps hw.2 fun x hx => hall x (by simp [hx])]
 
@@ -219,7 +219,7 @@ theorem applyZip_zip_eq :
     ∀ (its ots : List Ty) (cs : List Plan) (ps : List Payload),
     All3 (fun it ot p => PlanFor E false it ot p) its ots cs → wtZip its ps = true →
     wfL its = true → hasOptL its = false → wfL ots = true → hasDynL ots = false →
-    regularZip its ots = true →
+    regularZip E its ots = true →
     applyZip rec id (upL cs) (zipTys its ps) = applyZip rec id cs (zipTys its ps)
   | [], _, _, [], .nil, _, _, _, _, _, _ => rfl
   | [], _, _, _ :: _, _, hw, _, _, _, _, _ => by simp [wtZip] at hw
@@ -230,7 +230,7 @@ theorem applyZip_zip_eq :
     simp only [hasOptL, Bool.or_eq_false_iff] at hoi
     simp only [hasDynL, Bool.or_eq_false_iff] at hdo
     simp only [regularZip, Bool.and_eq_true] at hr
-    have hc : Conds it ot ⟨it, p⟩ := ⟨rfl, hwi.1, hwo.1, hoi.1, hdo.1, hr.1, hw.1⟩
+    have hc : Conds E it ot ⟨it, p⟩ := ⟨rfl, hwi.1, hwo.1, hoi.1, hdo.1, hr.1, hw.1⟩
     simp only [upL, zipTys, applyZip, planFor_eq heq hp hc,
       applyZip_zip_eq its ots cs ps hps hw.2 hwi.2 hoi.2 hwo.2 hdo.2 hr.2]
 
@@ -259,7 +259,7 @@ theorem objAttrLoop_eq {on : List String} {ot : List Ty} {oo : List Bool} {keys 
     simp only [zipTys, objAttrLoop, lookupPlan_upL, hlk, Option.map_some]
     rcases hap with ⟨rfl, _⟩ | ⟨oty, o, hf, hpf⟩
     · simp only [up]; exact ih
-    · have hc : Conds it oty ⟨it, p⟩ :=
+    · have hc : Conds E it oty ⟨it, p⟩ :=
         ⟨rfl, hwi, (hout oty o hf).1, hoi, (hout oty o hf).2.1, (hout oty o hf).2.2, hw.1⟩
       have hstep := planFor_eq heq hpf hc
       rcases hpf with ⟨rfl, _⟩ | ⟨c', rfl, _⟩
@@ -278,7 +278,7 @@ theorem upL_length : ∀ (cs : List Plan), (upL cs).length = cs.length
 
 theorem inner_eq {E : Env} (hU : UnifyLaws E) {rec : Rec} (hrec : RecOK E rec) (heq : RecEq E rec)
     (inT out : Ty) (c : Plan) (v : Value) (hg : gck E inT out false = some c)
-    (hc : Conds inT out v) (hp : plain v.v) : applyStep E rec (up c) v = applyStep E rec c v := by
+    (hc : Conds E inT out v) (hp : plain v.v) : applyStep E rec (up c) v = applyStep E rec c v := by
   obtain ⟨hty, hwI, hwO, hoI, hdO, hreg, hwt⟩ := hc
   obtain ⟨vt, vp⟩ := v
   simp only at hty hwt hp
@@ -300,7 +300,7 @@ theorem inner_eq {E : Env} (hU : UnifyLaws E) {rec : Rec} (hrec : RecOK E rec) (
     case list ie =>
       have hwi : wf ie = true := by simpa [wf] using hwI
       have hoi : hasOpt ie = false := by simpa [hasOpt] using hoI
-      have hr : regular ie oe = true := by simpa [regular, Ty.isDyn] using hreg
+      have hr : regular E ie oe = true := by simpa [regular, Ty.isDyn] using hreg
       obtain ⟨ps, rfl, hps⟩ := shape_list hp hwt
       have hpf : ∃ conv, c = .collToList oe conv ∧ PlanFor E false ie oe conv := by
         split at hg
@@ -316,7 +316,7 @@ theorem inner_eq {E : Env} (hU : UnifyLaws E) {rec : Rec} (hrec : RecOK E rec) (
     case set ie =>
       have hwi : wf ie = true := by simpa [wf] using hwI
       have hoi : hasOpt ie = false := by simpa [hasOpt] using hoI
-      have hr : regular ie oe = true := by simpa [regular, Ty.isDyn] using hreg
+      have hr : regular E ie oe = true := by simpa [regular, Ty.isDyn] using hreg
       obtain ⟨ids, ps, rfl, hps⟩ := shape_set hp hwt
       have hpf : ∃ conv, c = .collToList oe conv ∧ PlanFor E false ie oe conv := by
         split at hg
@@ -332,9 +332,10 @@ theorem inner_eq {E : Env} (hU : UnifyLaws E) {rec : Rec} (hrec : RecOK E rec) (
     case tuple its =>
       have hwi : wfL its = true := by simpa [wf] using hwI
       have hoi : hasOptL its = false := by simpa [hasOpt] using hoI
-      have hr : ∀ it ∈ its, regular it oe = true := by
-        have : (its.all fun it => regular it oe) = true := by simpa [regular, Ty.isDyn] using hreg
-        exact all_of_regular this
+      have hr : ∀ it ∈ its, regular E it oe = true := by
+        have := hreg
+        simp only [regular, Ty.isDyn, Bool.false_eq_true, if_false, Bool.and_eq_true] at this
+        exact all_of_regular this.1
       obtain ⟨ps, rfl, hps⟩ := shape_tuple hp hwt
       split at hg
       · simp at hg; subst hg; rfl
@@ -343,7 +344,7 @@ theorem inner_eq {E : Env} (hU : UnifyLaws E) {rec : Rec} (hrec : RecOK E rec) (
         simp only [seqTargetEty, hnd] at hg
         obtain ⟨cs, hcs, rfl⟩ := Option.map_eq_some_iff.mp hg
         have hpl := gcAll_inv E false oe hcs
-        have hall : ∀ it ∈ its, wf it = true ∧ hasOpt it = false ∧ regular it oe = true :=
+        have hall : ∀ it ∈ its, wf it = true ∧ hasOpt it = false ∧ regular E it oe = true :=
           fun it hit => ⟨wfL_mem hwi it hit, hasOptL_mem hoi it hit, hr it hit⟩
         simp only [up, applyStep, elemsOf, Res.bind, applyZip_all_eq heq id hwo hdo its cs ps hpl hps hall]
         cases hz : applyZip rec id cs (zipTys its ps) with
@@ -366,7 +367,7 @@ theorem inner_eq {E : Env} (hU : UnifyLaws E) {rec : Rec} (hrec : RecOK E rec) (
     case set ie =>
       have hwi : wf ie = true := by simpa [wf] using hwI
       have hoi : hasOpt ie = false := by simpa [hasOpt] using hoI
-      have hr : regular ie oe = true := by simpa [regular, Ty.isDyn] using hreg
+      have hr : regular E ie oe = true := by simpa [regular, Ty.isDyn] using hreg
       obtain ⟨ids, ps, rfl, hps⟩ := shape_set hp hwt
       have hpf : ∃ conv, c = .collToSet oe conv ∧ PlanFor E false ie oe conv := by
         split at hg
@@ -382,9 +383,10 @@ theorem inner_eq {E : Env} (hU : UnifyLaws E) {rec : Rec} (hrec : RecOK E rec) (
     case tuple its =>
       have hwi : wfL its = true := by simpa [wf] using hwI
       have hoi : hasOptL its = false := by simpa [hasOpt] using hoI
-      have hr : ∀ it ∈ its, regular it oe = true := by
-        have : (its.all fun it => regular it oe) = true := by simpa [regular, Ty.isDyn] using hreg
-        exact all_of_regular this
+      have hr : ∀ it ∈ its, regular E it oe = true := by
+        have := hreg
+        simp only [regular, Ty.isDyn, Bool.false_eq_true, if_false, Bool.and_eq_true] at this
+        exact all_of_regular this.1
       obtain ⟨ps, rfl, hps⟩ := shape_tuple hp hwt
       split at hg
       · simp at hg; subst hg; rfl
@@ -393,7 +395,7 @@ theorem inner_eq {E : Env} (hU : UnifyLaws E) {rec : Rec} (hrec : RecOK E rec) (
         simp only [seqTargetEty, hnd] at hg
         obtain ⟨cs, hcs, rfl⟩ := Option.map_eq_some_iff.mp hg
         have hpl := gcAll_inv E false oe hcs
-        have hall : ∀ it ∈ its, wf it = true ∧ hasOpt it = false ∧ regular it oe = true :=
+        have hall : ∀ it ∈ its, wf it = true ∧ hasOpt it = false ∧ regular E it oe = true :=
           fun it hit => ⟨wfL_mem hwi it hit, hasOptL_mem hoi it hit, hr it hit⟩
         simp only [up, applyStep, elemsOf, Res.bind, applyZip_all_eq heq stripNull hwo hdo its cs ps hpl hps hall]
   | map oe =>
@@ -403,7 +405,7 @@ theorem inner_eq {E : Env} (hU : UnifyLaws E) {rec : Rec} (hrec : RecOK E rec) (
     case map ie =>
       have hwi : wf ie = true := by simpa [wf] using hwI
       have hoi : hasOpt ie = false := by simpa [hasOpt] using hoI
-      have hr : regular ie oe = true := by simpa [regular, Ty.isDyn] using hreg
+      have hr : regular E ie oe = true := by simpa [regular, Ty.isDyn] using hreg
       obtain ⟨ks, ps, rfl, _, hps⟩ := shape_map hp hwt
       obtain ⟨c', hc', rfl⟩ := hg
       have hpf : PlanFor E false ie oe (.wrap oe c') := .inr ⟨c', rfl, hc'⟩
@@ -421,9 +423,10 @@ theorem inner_eq {E : Env} (hU : UnifyLaws E) {rec : Rec} (hrec : RecOK E rec) (
         simp only [wf, Bool.and_eq_true] at hwI; exact hwI.2
       have hoi : hasOptL its = false := by
         simp only [hasOpt, Bool.or_eq_false_iff] at hoI; exact hoI.2
-      have hr : ∀ it ∈ its, regular it oe = true := by
-        have : (its.all fun it => regular it oe) = true := by simpa [regular, Ty.isDyn] using hreg
-        exact all_of_regular this
+      have hr : ∀ it ∈ its, regular E it oe = true := by
+        have := hreg
+        simp only [regular, Ty.isDyn, Bool.false_eq_true, if_false, Bool.and_eq_true] at this
+        exact all_of_regular this.1
       obtain ⟨ps, rfl, hps⟩ := shape_object hp hwt
       split at hg
       · simp at hg; subst hg; rfl
@@ -432,7 +435,7 @@ theorem inner_eq {E : Env} (hU : UnifyLaws E) {rec : Rec} (hrec : RecOK E rec) (
         simp only [mapTargetEty, hnd] at hg
         obtain ⟨cs, hcs, rfl⟩ := Option.map_eq_some_iff.mp hg
         have hpl := gcAll_inv E false oe hcs
-        have hall : ∀ it ∈ its, wf it = true ∧ hasOpt it = false ∧ regular it oe = true :=
+        have hall : ∀ it ∈ its, wf it = true ∧ hasOpt it = false ∧ regular E it oe = true :=
           fun it hit => ⟨wfL_mem hwi it hit, hasOptL_mem hoi it hit, hr it hit⟩
         simp only [wf, Bool.and_eq_true, beq_iff_eq] at hwI
         have hndI := strictAsc_nodup hwI.1.2
@@ -465,7 +468,7 @@ theorem inner_eq {E : Env} (hU : UnifyLaws E) {rec : Rec} (hrec : RecOK E rec) (
     case tuple its =>
       obtain ⟨hlen, cs, hcs, rfl⟩ := hg
       obtain ⟨ps, rfl, hps⟩ := shape_tuple hp hwt
-      have hr : regularZip its ots = true := by
+      have hr : regularZip E its ots = true := by
         have := hreg; simp [regular, Ty.isDyn] at this; exact this.2
       have hpl := gcZip_inv E false hlen hcs
       simp only [up, applyStep, elemsOf, Res.bind,
@@ -476,7 +479,7 @@ theorem inner_eq {E : Env} (hU : UnifyLaws E) {rec : Rec} (hrec : RecOK E rec) (
     case object inn its ios =>
       obtain ⟨hreq, cs, hcs, rfl⟩ := hg
       obtain ⟨ps, rfl, hps⟩ := shape_object hp hwt
-      have hr : regularObj inn its ios on ot = true := by simpa [regular, Ty.isDyn] using hreg
+      have hr : regularObj E inn its ios on ot = true := by simpa [regular, Ty.isDyn] using hreg
       have hwI' := hwI
       have hwO' := hwO
       have hoI' := hoI
@@ -511,7 +514,7 @@ theorem recEq_apply {E : Env} (hU : UnifyLaws E) : ∀ n, RecEq E (apply E n) :=
       split
       · -- marked
         rename_i hm
-        have hc' : Conds inT out v.unmark :=
+        have hc' : Conds E inT out v.unmark :=
           ⟨hc.ty, hc.wfI, hc.wfO, hc.optI, hc.dynO, hc.reg, unmark_wt hm hc.wt⟩
         have := hrec inT out c v.unmark hg hc'
         rw [this]
